@@ -2,6 +2,7 @@ package gosx
 
 import (
 	"fmt"
+	"os"
 	"go/constant"
 	"go/token"
 	"go/types"
@@ -51,6 +52,7 @@ type frame struct {
 	panicking bool
 	panicVal  interface{}
 	depth     int
+	curInstr  ssa.Instruction
 }
 
 // Machine is the per-path interpreter state.
@@ -70,6 +72,8 @@ type Machine struct {
 	Params   map[string]int
 	natives  map[string]interface{}
 	trace    bool
+	curFrame *frame
+	fixedSchedule bool
 }
 
 func (m *Machine) abort(reason string) {
@@ -79,6 +83,9 @@ func (m *Machine) abort(reason string) {
 // throw raises a Go runtime panic in the target program.
 func (m *Machine) throw(msg string) {
 	msg = strings.TrimPrefix(msg, "runtime error: ")
+	if debugThrow {
+		msg += " @ " + m.stackString()
+	}
 	var v Value
 	if m.P.rtErrStr != nil {
 		v = Iface{T: m.P.rtErrStr, V: Str{S: msg}}
@@ -217,6 +224,22 @@ func (m *Machine) call(caller *frame, fn Value, args []Value) Value {
 	}
 	m.abort(fmt.Sprintf("call of %T", fn))
 	return nil
+}
+
+var debugThrow = os.Getenv("VCHECK_DEBUG") != ""
+
+func (m *Machine) stackString() string {
+	var sb strings.Builder
+	n := 0
+	for fr := m.curFrame; fr != nil && n < 8; fr = fr.caller {
+		pos := ""
+		if fr.curInstr != nil {
+			pos = m.pos(fr.curInstr.Pos())
+		}
+		fmt.Fprintf(&sb, "%s (%s) <- ", fr.fn.String(), pos)
+		n++
+	}
+	return sb.String()
 }
 
 const maxDepth = 400
@@ -453,6 +476,8 @@ func (m *Machine) prepareCall(fr *frame, c *ssa.CallCommon) (Value, []Value) {
 }
 
 func (m *Machine) visit(fr *frame, instr ssa.Instruction) cont {
+	fr.curInstr = instr
+	m.curFrame = fr
 	switch instr := instr.(type) {
 	case *ssa.DebugRef:
 	case *ssa.UnOp:
